@@ -29,7 +29,10 @@ MANIFEST = {
             '`[-1]` variant); file model of the extension sections (rows over the generated column tables, headers, '
             'id<->name table): writing and re-reading gives back the extension and label rows exactly, trigger rows '
             'within 0.5 us (exactly on whole us), the same get_block chains and the same evaluate_labels result, for '
-            'every reachable store. '
+            'every reachable store; read() onto a NON-fresh object: exact post-read store (extension library kept when '
+            'the file has no [EXTENSIONS] section), invariant preserved, a stale extension-library keymap entry cannot '
+            'make add_block resolve to a wrong id, refuted (computed witness) for a reader that keeps the old trigger '
+            'library. '
             'Random label programs (all 21 labels, SET/INC, negative/zero/boolean values, several labels and '
             'triggers/outputs per block, shared/subset/reordered extension sets, mixed with RF/gradient/ADC events) '
             'run on the implementation and on the extracted model: store after every add_block, chains, get_block '
@@ -202,6 +205,128 @@ def gen_continue(rng, tier):
     ninit = rng.choice([0, 1, 2])
     init = [[l, rng.randint(-50, 50)] for l in dict.fromkeys(rng.sample(labs + labels()[:3], ninit))]
     return {'stream': 'continue', 'blocks': pre, 'post': post, 'init': init, 'first_use': kinds, 'kinds_before_reload': n_pre}
+
+
+def gen_reuse(rng, tier):
+    """ONE Sequence object: blocks A, then read() of a DIFFERENT file (other triggers / labels under the same
+    library ids, or no extension at all, or only some kinds), optionally a second read(), then blocks equal to the
+    pre-read ones and new ones"""
+    labs = rng.sample(labels(), rng.randint(2, 5))
+    tpool = [gen_trig(rng) for _ in range(rng.randint(2, 4))]
+
+    def block(kinds):
+        ops, trigs = [], []
+        if 'LAB' in kinds:
+            for lab in rng.sample(labs, min(len(labs), rng.randint(1, 3))):
+                ops.append([rng.choice(['SET', 'INC']), lab, gen_value(rng, lab)])
+        if 'TRG' in kinds:
+            trigs = [copy.deepcopy(rng.choice(tpool)) for _ in range(rng.choice([1, 1, 2]))]
+        return {'ops': ops, 'trigs': trigs, 'extra': gen_extra(rng), 'order': rng.random()}
+
+    def program(kinds_choices, n):
+        return [block(rng.choice(kinds_choices)) for _ in range(n)]
+
+    pre = program([['LAB', 'TRG'], ['TRG'], ['LAB', 'TRG'], ['LAB']], rng.randint(1, 4))
+    if not any(b['trigs'] for b in pre):
+        pre.append(block(['TRG']))
+    files = []
+    for _ in range(rng.choice([1, 1, 1, 2])):
+        flavour = rng.choice(['other', 'other', 'none', 'labels-only', 'triggers-only'])
+        kc = {'other': [['LAB', 'TRG'], ['TRG'], ['LAB']], 'none': [[]], 'labels-only': [['LAB']],
+              'triggers-only': [['TRG']]}[flavour]
+        prog = program(kc, rng.randint(1, 4))
+        if flavour in ('other', 'triggers-only'):
+            # other events under the ids the object already uses: a pool the object has not seen, used first
+            other = [gen_trig(rng) for _ in range(2)]
+            prog.insert(0, {'ops': [], 'trigs': other, 'extra': [], 'order': 0.0})
+        files.append({'flavour': flavour, 'blocks': prog})
+    post = []
+    for b in rng.sample(pre, min(len(pre), rng.randint(1, 3))):
+        post.append(copy.deepcopy(b))                       # events equal to the pre-read ones
+    post += program([['LAB', 'TRG'], ['TRG'], ['LAB']], rng.randint(1, 3))
+    rng.shuffle(post)
+    init = [[l, rng.randint(-50, 50)] for l in dict.fromkeys(rng.sample(labs, rng.choice([0, 1, 2])))]
+    return {'stream': 'reuse', 'blocks': pre, 'files': files, 'post': post, 'init': init}
+
+
+def run_reuse(ctx, case, pending):
+    """object history: add_block*, read(other file) (+ read again), add_block*, write/read"""
+    import pypulseq as pp
+    s = Single(pp.Opts())
+    expect = []
+    for spec in case['blocks']:
+        evs = build_block(spec)
+        rec = s.add(evs)
+        if rec['outcome'][0] != 'ok':
+            ctx.fail('C19/add_block-raises', case, {'block': len(expect) + 1, 'error': rec['outcome'][1]})
+            return
+        expect.append(added_multisets(evs))
+    for i in list(s.on.block_events.keys()):
+        s.get(i)
+    ok = check_sequence(ctx, dict(case, post=[]), s.on, expect, 'stored')
+    for f in case['files']:
+        sb = Single(pp.Opts())
+        expect = []
+        for spec in f['blocks']:
+            evs = build_block(spec)
+            rec = sb.add(evs)
+            if rec['outcome'][0] != 'ok':
+                ctx.fail('C19/add_block-raises', case, {'file-block': len(expect) + 1, 'error': rec['outcome'][1]})
+                return
+            expect.append(added_multisets(evs))
+        ops_before = list(s.ops)
+        with tempfile.TemporaryDirectory(prefix='pvC19') as d:
+            fn = os.path.join(d, 'o.seq')
+            try:
+                sb.on.write(fn, create_signature=False)
+                s.on.read(fn)
+            except Exception as e:  # noqa: BLE001
+                ctx.fail('C19/reuse-read-raises', case, {'exception': repr(e)[:300], 'flavour': f['flavour']})
+                return
+        rec = s.loaded()
+        ctx.count('reuse.read.' + f['flavour'])
+        if ctx.model_available:
+            pending.append((case, (s.header, ops_before, list(sb.ops)), rec['state'], 'readonto'))
+        for i in list(s.on.block_events.keys()):
+            s.get(i)
+        fcase = dict(case, blocks=f['blocks'], post=[])
+        if not check_sequence(ctx, fcase, s.on, expect, 'reuse-read'):
+            ok = False
+    expect2 = list(expect)
+    for spec in case['post']:
+        evs = build_block(spec)
+        rec = s.add(evs)
+        if rec['outcome'][0] != 'ok':
+            ctx.fail('C19/reuse-add_block-raises', case, {'block': len(expect2) + 1, 'error': rec['outcome'][1]})
+            return
+        expect2.append(added_multisets(evs))
+    for i in list(s.on.block_events.keys()):
+        s.get(i)
+    ecase = dict(case, blocks=case['files'][-1]['blocks'])
+    ok = check_sequence(ctx, ecase, s.on, expect2, 'reuse-extended') and ok
+    if ctx.model_available:
+        pending.append((case, s, case['init'], 'reuse'))
+    s3 = None
+    with tempfile.TemporaryDirectory(prefix='pvC19') as d:
+        fn = os.path.join(d, 'p.seq')
+        try:
+            s.on.write(fn, create_signature=False)
+            s3 = pp.Sequence(pp.Opts())
+            s3.read(fn)
+        except Exception as e:  # noqa: BLE001
+            ctx.fail('C19/reuse-write-read-raises', case, {'exception': repr(e)[:300]})
+            s3 = None
+    if s3 is not None:
+        r3 = Single(seq=s3)
+        r3.loaded()
+        for i in list(s3.block_events.keys()):
+            r3.get(i)
+        check_sequence(ctx, ecase, s3, expect2, 'reuse-extended-reread')
+        if ctx.model_available:
+            pending.append((case, r3, case['init'], 'reuse-reread'))
+    ctx.evaluated(('reuse', repr(case['blocks']), repr(case['files']), repr(case['post'])), nontrivial=True)
+    ctx.count('stream.reuse')
+    ctx.count('blocks.added_after_reuse_read', len(case['post']))
 
 
 def one_op(case):
@@ -592,24 +717,24 @@ def run_program(ctx, case, pending):
     ctx.count('ext.max_chain_len.%d' % min(6, max([0] + [len(b['ops']) + len(b['trigs']) for b in case['blocks']])))
 
 
-def compare_filemodel(ctx, case, state2, out):
+def compare_filemodel(ctx, case, state2, out, stream='filemodel'):
     """the extension part of the store after write + read into a fresh Sequence: implementation vs the Coq file
     model (Model/ExtFile.v: write_ext, read_ext)"""
     t = Toks(out)
     try:
         mc = t.opt(lambda: sm.p_core(t))
     except Exception as e:  # noqa: BLE001
-        ctx.mismatch('filemodel', case, {'what': 'cannot parse model output: %r / %s' % (e, out[:200])})
+        ctx.mismatch(stream, case, {'what': 'cannot parse model output: %r / %s' % (e, out[:200])})
         return
     if mc is None:
-        ctx.mismatch('filemodel', case, {'what': 'the file model says read() raises, the implementation read the file'})
+        ctx.mismatch(stream, case, {'what': 'the file model says read() raises, the implementation read the file'})
         return
     names = sm.LIBS
     for name in ('label_set_library', 'label_inc_library', 'extensions_library'):
         k = names.index(name)
         d = sm.cmp_lib(name, state2['libs'][k], mc['libs'][k])
         if d:
-            ctx.mismatch('filemodel', case, {'what': d})
+            ctx.mismatch(stream, case, {'what': d})
             return
     k = names.index('trigger_library')
     it, mt = state2['libs'][k], mc['libs'][k]
@@ -625,11 +750,11 @@ def compare_filemodel(ctx, case, state2, out):
         if sorted(v for _, v in it['keymap']) != sorted(v for _, v in mt['keymap']):
             bad = bad or 'trigger_library keymap ids differ'
     if bad:
-        ctx.mismatch('filemodel', case, {'what': bad})
+        ctx.mismatch(stream, case, {'what': bad})
         return
     for key in ('ext_num', 'ext_str'):
         if state2[key] != mc[key]:
-            ctx.mismatch('filemodel', case, {'what': '%s after read: impl %s model %s' % (key, state2[key], mc[key])})
+            ctx.mismatch(stream, case, {'what': '%s after read: impl %s model %s' % (key, state2[key], mc[key])})
             return
 
 
@@ -640,12 +765,15 @@ def flush(ctx, pending):
     for _, s, init, stream in pending:
         if stream == 'filemodel':
             lines.append('labels.reread ' + s.header + ' ' + ' '.join([str(len(s.ops))] + s.ops))
+        elif stream == 'readonto':
+            hdr, oa, ob = s
+            lines.append('labels.readonto ' + hdr + ' ' + ' '.join([str(len(oa))] + oa) + ' ' + ' '.join([str(len(ob))] + ob))
         else:
             lines.append(s.line(init))
     outs = ctx.model(lines)
     for (case, s, init, stream), o in zip(pending, outs):
-        if stream == 'filemodel':
-            compare_filemodel(ctx, case, init, o)
+        if stream in ('filemodel', 'readonto'):
+            compare_filemodel(ctx, case, init, o, stream)
         else:
             compare_store(ctx, case, s, init, o, stream)
     del pending[:]
@@ -782,38 +910,46 @@ def corpus():
 
 
 def run(ctx):
-    n_prog = {'quick': 500, 'thorough': 12000}[ctx.tier]
+    n_prog = {'quick': 400, 'thorough': 12000}[ctx.tier]
     pending = []
     for c in corpus():
         run_program(ctx, c, pending)
     flush(ctx, pending)
     boundary_stream(ctx)
     int32_stream(ctx, ctx.rng('int32'))
-    # continue building on a re-read sequence (runs before the main stream so that a time-boxed run reaches it)
+    # the three program streams are interleaved (8 : 3 : 2), so that a time-boxed or escalated run reaches all of them:
+    #   main / multi programs; continue building on a re-read sequence; object history (one Sequence object is filled,
+    #   read()s other files, and is filled again)
     rngc = ctx.rng('continue')
-    for n in range({'quick': 150, 'thorough': 3000}[ctx.tier]):
-        if ctx.out_of_time():
-            break
-        case = gen_continue(rngc, ctx.tier)
-        ctx.count('continue.first_use.' + '-'.join(case['first_use']) + '/%d' % case['kinds_before_reload'])
-        run_program(ctx, case, pending)
-        if n == 3:
-            ctx.sample({'stream': 'continue', 'first_use': case['first_use'], 'pre': [[b['ops'], b['trigs']] for b in case['blocks'][:3]],
-                        'post': [[b['ops'], b['trigs']] for b in case['post'][:3]]})
-        if len(pending) >= 60:
-            flush(ctx, pending)
-    flush(ctx, pending)
+    rngr = ctx.rng('reuse')
     rng = ctx.rng('programs')
     rngm = ctx.rng('multi')
+    n_cont = n_reuse = 0
     for n in range(n_prog):
         if ctx.out_of_time():
-            ctx.notes.append('time budget reached after %d programs' % n)
+            ctx.notes.append('time budget reached after %d rounds' % n)
             break
         multi = n % 4 == 3
         case = gen_program(rngm if multi else rng, ctx.tier, multi=multi)
         run_program(ctx, case, pending)
         if n % 50 == 1:
             ctx.sample({'stream': case['stream'], 'blocks': [[b['ops'], b['trigs']] for b in case['blocks'][:4]], 'init': case['init']})
+        if n % 8 in (0, 3, 6):
+            case = gen_continue(rngc, ctx.tier)
+            ctx.count('continue.first_use.' + '-'.join(case['first_use']) + '/%d' % case['kinds_before_reload'])
+            run_program(ctx, case, pending)
+            n_cont += 1
+            if n_cont == 4:
+                ctx.sample({'stream': 'continue', 'first_use': case['first_use'], 'pre': [[b['ops'], b['trigs']] for b in case['blocks'][:3]],
+                            'post': [[b['ops'], b['trigs']] for b in case['post'][:3]]})
+        if n % 8 in (1, 5):
+            case = gen_reuse(rngr, ctx.tier)
+            run_reuse(ctx, case, pending)
+            n_reuse += 1
+            if n_reuse == 3:
+                ctx.sample({'stream': 'reuse', 'pre': [[b['ops'], b['trigs']] for b in case['blocks'][:2]],
+                            'files': [[f['flavour'], [[b['ops'], b['trigs']] for b in f['blocks'][:2]]] for f in case['files']],
+                            'post': [[b['ops'], b['trigs']] for b in case['post'][:2]]})
         if len(pending) >= 60:
             flush(ctx, pending)
     flush(ctx, pending)
@@ -827,6 +963,9 @@ def replay(ctx, case):
     if 'blocks' not in case:
         return {'note': 'no program in this case', 'case': case}
     pending = []
-    run_program(ctx, case, pending)
+    if 'files' in case:
+        run_reuse(ctx, case, pending)
+    else:
+        run_program(ctx, case, pending)
     flush(ctx, pending)
     return {'failures': [f['signature'] for f in ctx.failures], 'mismatches': len(ctx.mismatches)}
